@@ -2824,8 +2824,10 @@ class _Frame:
         # items need not be constants
         local_tuple = isinstance(g.iter, ast.Name) and g.iter.id in st.env and items.op == "tuple" \
             and not any(i.op == "star" for i in items.a[0])     # an (immutable) tuple built earlier in this function
-        if not (items.op in ("tuple", "list") and items.a[0] and len(items.a[0]) <= 64
-                and (inline or local_tuple or all(_const_tree(i) for i in items.a[0]))):
+        flat_members = items.op in ("tuple", "list") and items.a[0] and all(i.op == "enum" for i in items.a[0])
+        if flat_members or not (items.op in ("tuple", "list") and items.a[0] and len(items.a[0]) <= 64
+                                and (inline or local_tuple or all(_const_tree(i) for i in items.a[0]))):
+            # (a flat tuple of enum members stays a loop over members: that is the form the flag rules judge, C11)
             del self.rec.pops[saved[0]:]
             del self.rec.calls[saved[1]:]
             del self.rec.effects[saved[2]:]
